@@ -199,6 +199,7 @@ pub fn run(ctx: &Ctx) -> i32 {
         let n = if ctx.quick() { 14 } else { 16 };
         explore(ctx, &format!("COMBO: complete 12-step buildings, {n} subsystems absent/present"), Layered { slots: alpha::combo_slots(n), bases: alpha::bases(false) }, C12, shared.clone());
     }
+    explore(ctx, "VOCAB: every (service, carrier) pair / cogeneration fuel / production source added to a small building", Wide { alphabet: alpha::vocab_letters(), bases: alpha::vocab_base(), max_add: if ctx.quick() { 1 } else { 2 }, repeat: false }, C12, shared.clone());
     explore(ctx, "TINY: values around the absolute thresholds of the code (1e-3, 0.01 kWh), depth<=4", Wide { alphabet: alpha::tiny_letters(), bases: alpha::bases(false), max_add: 4, repeat: false }, C12, shared.clone());
     explore(ctx, "LONG: complete buildings with 13, 24, 31, 52, 365 and 8760 steps", Wide { alphabet: vec![], bases: alpha::long_bases(), max_add: 0, repeat: false }, C12, shared.clone());
     explore(ctx, "seeded: shipped files + <=2 lines", Wide { alphabet: alpha::seeded_letters(), bases: alpha::shipped_bases(), max_add: if ctx.quick() { 1 } else { 2 }, repeat: false }, C12, shared.clone());
